@@ -637,6 +637,15 @@ func (g *Gen) genStmts(n int) []Stmt {
 			s = g.genStore()
 		case 1:
 			s = g.genLocalDecl()
+			if vd, ok := s.(*VarDecl); ok && vd.V.Kind == VLet && vd.V.Ty.Kind != KPtr && g.on("decl.unused-alias-lets") && r.Chance(1, 5) {
+				// two or three further lets that merely rename this one and are never used: they all name the same
+				// expression, whose printed name must not depend on anything but the source
+				g.feat("decl.unused-alias-lets")
+				for k, nk := 0, r.Range(2, 3); k < nk; k++ {
+					av := &Var{Name: g.name("l"), Kind: VLet, Ty: vd.V.Ty}
+					ss = append(ss, &VarDecl{V: av, Init: &Ref{V: vd.V}})
+				}
+			}
 		case 2:
 			if n > 1 {
 				s = g.genIf(n)
